@@ -88,3 +88,9 @@ ASSUME.update({
          "the small / large stores and the meta index are maps with atomic operations and batches (C01, C10); a crash is the refusal of every write after the k-th",
          "the translator reports whether RemoveBlobs hands the whole list of blobs to the loose store"],
 })
+ASSUME.update({
+ "C18": ["the storage behind the handlers is a sorted map of refs (C01); refs are compared as byte strings (C20)",
+         "net/http, encoding/json and mime/multipart are exercised, not modelled; what the handlers print is read back by the harness' own JSON decoding",
+         "the translator reports the shape of two pieces of source (the for-condition of handleEnumerateBlobs mentions Before; the doStat callback in StatBlobs does not call fn); what they do is covered by the correspondence",
+         "wall-clock waiting of the long-poll forms is not modelled"],
+})
